@@ -35,7 +35,7 @@ def replay_blocksum(shape, b):
         from acryo._utils import bin_image
 
         rng = np.random.default_rng(7)
-        img = rng.integers(-5, 6, size=shape).astype(np.float64)
+        img = rng.normal(size=shape)
         out = bin_image(img, b)
         ref_shape = tuple(s // b for s in shape)
         ref = np.zeros(ref_shape)
@@ -47,13 +47,16 @@ def replay_blocksum(shape, b):
     return run
 
 
-def sec_blocksum(rec, shapes=(), bins=(1, 2, 3), patches=None):
+def sec_blocksum(rec, shapes=(), bins=(1, 2, 3), pairs=None, patches=None):
     L = _load(patches)
     U = L["acryo._utils"]
     rec.encodes("acryo/_utils.py:bin_image")
-    for shape in shapes:
+    if pairs is None:
+        pairs = [(s, b) for s in shapes for b in bins]
+    for shape, b in pairs:
+        shape = tuple(shape)
         vox = {idx: real("v_" + "_".join(map(str, idx))) for idx in np.ndindex(shape)}
-        for b in bins:
+        for b in (b,):
             def run():
                 img = SymArray(shape=shape)
                 for idx, v in vox.items():
@@ -98,7 +101,7 @@ def sec_outshape(rec, bins=(1, 2, 3, 4, 5, 6), patches=None):
 
             def rp(cex, b=b):
                 shape = tuple(int(frac(cex.get(f"n{k}", 7))) for k in range(3))
-                shape = tuple(min(max(s, 1), 40) for s in shape)
+                shape = tuple((s % b) + b * min(max(s // b, 1), 3) for s in shape)  # same remainders, small non-empty output
                 return replay_blocksum(shape, b)(cex)
 
             for a in range(3):
@@ -110,6 +113,10 @@ def sec_outshape(rec, bins=(1, 2, 3, 4, 5, 6), patches=None):
             root = out.root
             ok = isinstance(root, tuple) and root[0] == "binned" and tuple(root[2]) == (b, b, b)
             rec.fact(f"outshape[b={b}]/path{i}/block-pattern", ok, key="C15/bin_image/block-pattern", detail={"root": repr(root)})
+            if ok:
+                for a in range(3):
+                    rec.query(f"outshape[b={b}]/path{i}/blocks-start-at-voxel0-axis{a}", h, zi(root[1].origin[a]) == 0,
+                              key="C15/bin_image/block-origin", names={f"n{k}" for k in range(3)}, replay=rp)
 
 
 def _replay_region(b, order=1):
@@ -192,6 +199,11 @@ def sec_region(rec, b=2, patches=None):
             root = binned._image.root
             ok = isinstance(root, tuple) and root[0] == "binned" and root[1].root == "tomogram" and tuple(root[2]) == (b, b, b)
             rec.fact(f"{tag}/path{i}/image-is-bin_image(original)", bool(ok), key="C15/binning/image", detail={"root": repr(root)})
+            if ok:
+                for a in range(3):
+                    # binned voxel 0 starts at original voxel 0 (the incomplete remainder is dropped at the far end)
+                    rec.query(f"{tag}/path{i}/blocks-start-at-voxel0-axis{a}", h, zi(root[1].origin[a]) == 0, key="C15/bin_image/block-origin",
+                              names=names, replay=rp)
             for a in range(3):
                 rec.query(f"{tag}/path{i}/binned-image-side{a}", h, zi(binned._image.shape[a]) == n[a].e / b, key="C15/bin_image/shape",
                           names=names, replay=rp)
@@ -258,20 +270,33 @@ def sec_conformance(rec):
         rec.error("translator/bin_image", f"{mism} mismatches")
 
 
-def _shapes(tier):
-    cand = [s for s in itertools.product(range(1, 8), repeat=3) if s[0] * s[1] * s[2] <= (40 if not quick(tier) else 24)]
-    if quick(tier):
-        pick = [(1, 1, 1), (2, 2, 2), (3, 2, 1), (1, 2, 7), (4, 3, 2), (2, 5, 2), (3, 3, 2), (7, 1, 3), (1, 6, 4), (2, 2, 5)]
-        return [s for s in pick if s in cand]
-    return cand
+def _shape_bins(tier):
+    """(shape, b) pairs with every side >= b (non-empty output) covering remainders 0..b-1 on some axis"""
+    out = []
+    bmax, cap = (4, 120) if quick(tier) else (6, 400)
+    for b in range(1, bmax + 1):
+        sides = list(range(b, min(2 * b + 2, 9) + 1)) if b > 1 else [1, 2, 3]
+        cand = [s for s in itertools.product(sides, repeat=3) if s[0] * s[1] * s[2] <= cap]
+        if quick(tier):
+            # one shape per remainder pattern on the last axis + two mixed ones
+            seen, pick = set(), []
+            for s in cand:
+                key = tuple(x % b for x in s)
+                if key[2] not in seen and s[0] == b and s[1] == b:
+                    seen.add(key[2])
+                    pick.append(s)
+            mixed = [s for s in cand if len({x % b for x in s}) == min(3, b) and len(set(s)) == min(3, len(sides))][:2]
+            cand = pick + mixed
+        out += [(s, b) for s in cand]
+    return out
 
 
 def sections(tier):
     S = [("conformance", "checks.c15", "sec_conformance", {})]
-    shapes = _shapes(tier)
-    chunk = 4 if quick(tier) else 12
-    for i in range(0, len(shapes), chunk):
-        S.append((f"blocksum-{i // chunk}", "checks.c15", "sec_blocksum", {"shapes": shapes[i:i + chunk], "bins": (1, 2, 3)}))
+    pairs = _shape_bins(tier)
+    chunk = 3 if quick(tier) else 10
+    for i in range(0, len(pairs), chunk):
+        S.append((f"blocksum-{i // chunk}", "checks.c15", "sec_blocksum", {"pairs": pairs[i:i + chunk]}))
     S.append(("outshape", "checks.c15", "sec_outshape", {}))
     for b in range(1, 7):
         S.append((f"region-b{b}", "checks.c15", "sec_region", {"b": b}))
@@ -301,7 +326,8 @@ def run(tier, procs=None, only=None):
                     "shape-only image with symbolic sides; binning() is executed on a loader with symbolic position, scale, box shape and "
                     "rotation matrix, and the affine maps of the binned and of the original loader (through the real C02 pipeline) are "
                     "compared by z3: b*A_bin(k) + (b-1)/2 == A_orig(b*k + (b-1)/2) for every real k.",
-        bounds={"block sums": f"{len(_shapes(tier))} array shapes with <= {24 if quick(tier) else 40} voxels, b in 1..3, all voxel values symbolic",
+        bounds={"block sums": f"{len(_shape_bins(tier))} (shape, b) pairs, every side >= b so the output is non-empty, b in 1..{4 if quick(tier) else 6}, "
+                              f"<= {120 if quick(tier) else 400} voxels, all voxel values symbolic",
                 "output shape": "every image side >= 1 (symbolic), b in 1..6",
                 "same region": "b in 1..6; position, scale > 0, rotation matrix (9 free reals), box sides 1..8 symbolic; molecule >= 1000 px inside the tomogram (boundary handling is C02)",
                 "order": 1},
